@@ -609,6 +609,14 @@ example : (FSet.run ltInt {} [.insert 5, .insert 2, .insert 5, .insert 9, .count
 example : (FSet.run (fun a b => decide (b < a)) {} [.insert 5, .insert 1, .count 1, .insert 7, .iter]).2 =
     [.unit, .unit, .nat 1, .unit, .keys [7, 5, 1]] := by decide
 
+/-- df076d8 (`flat_set(const Compare &comp)` dropped `comp`: the set ordered by a default-constructed
+    comparator = the model run with the default direction): with the stateful comparator `Dir`,
+    `flat_set<int, Dir> s(Dir(true)); insert 1; insert 2` iterated 1, 2; std::set (and the fixed code, by
+    `flat_set_refines` with the descending order) iterates 2, 1 -/
+theorem flat_set_comparator_object_orig_witness :
+    (FSet.run ltInt {} [.insert 1, .insert 2, .iter]).2 = [.unit, .unit, .keys [1, 2]] ∧
+    (FSet.run (fun a b => decide (b < a)) {} [.insert 1, .insert 2, .iter]).2 = [.unit, .unit, .keys [2, 1]] := by decide
+
 /-- "the stored elements in increasing order" is a function of the set: two strictly increasing lists with
     the same elements are equal (so `setRetOk` fixes the answer of `iter` and `size` uniquely) -/
 theorem flat_set_enumeration_unique {lt : Int → Int → Bool} (h : StrictWeak lt) (a b : List Int)
